@@ -46,8 +46,6 @@ Fixpoint chk_parts (cs : list pcase) (i : nat) : nat * list nat :=
   match cs with [] => (O, []) | c :: r => let '(m, fl) := chk_parts r (S i) in if pagree c then (m, fl) else (S m, i :: fl) end.
 
 (* required variables: the model's list, sorted and without repeats, against the names Formula.required_variables reports *)
-Fixpoint ins_s (x : str) (l : list str) : list str :=
-  match l with [] => [x] | y :: r => match lcmp x y with Lt => x :: l | Eq => l | Gt => y :: ins_s x r end end.
 Record rcase := { r_terms : list term; r_names : list str }.
 Fixpoint chk_required (cs : list rcase) (i : nat) : nat * list nat :=
   match cs with [] => (O, [])
